@@ -122,6 +122,7 @@ def run(R):
                  detail=None if ok else "every processor receives a clone of the single RSPEngine.r2r handle; window contents of all "
                  "streams share one default graph and each window plan matches the other windows' items")
     r3(R)
+    r4(R)
     # conforming sibling (cited): execute_window_plans_on_external_buckets builds a fresh database per window
     sib = prog.one("rsp_engine::execute_window_plans_on_external_buckets", crate="kolibrie")
     if sib is not None:
@@ -268,3 +269,127 @@ def r3(R):
                         ok = True
         R.ob("C11-R3", "compatible-before-merge", "two rows are merged only after all their shared variables were compared", ok, where=x.where(pc.ln),
              detail=None if ok else why + " — rows that disagree on a shared variable are merged and one window's value overwrites the other's")
+
+
+def r4(R):
+    """no operand of the multi-window join is bypassed: joining with an empty relation yields the empty relation"""
+    from lib import guards as G
+    from lib import pipeline as P
+    prog = R.prog
+    R.rule("C11-R4", "no join bypass: every window's result set is joined in (no iteration of the fold skips the join), the static "
+                     "bindings are joined whenever a static plan exists, and natural_join has no shortcut that returns one operand "
+                     "unchanged - an empty operand makes the result empty (a solution must be an answer of EVERY block)")
+    nj = R.body("C11-R4", "rsp_engine::natural_join", crate="kolibrie")
+    jw = R.body("C11-R4", "rsp_engine::join_window_results", crate="kolibrie")
+    em = R.body("C11-R4", "rsp_engine::emit_results", crate="kolibrie")
+    if nj is not None:
+        # every return of natural_join is either the accumulated result vector or a fresh empty vector
+        bad = []
+        acc = set()
+        for c in nj.calls():
+            if c.name() in ("push", "extend") and c.args:
+                acc.add(nj.alias_root(c.args[0]))
+        for d in nj.defs().get(0, []):
+            if d[0] == "call":
+                if d[2].name() not in ("new", "with_capacity", "default"):
+                    bad.append((d[2].name(), d[2].ln))
+            elif d[0] == "assign":
+                rv = d[3]
+                src = F.op_place(rv["op"]) if rv["rv"] == "use" else None
+                if src is None:
+                    bad.append(("rvalue", None))
+                    continue
+                root = nj.alias_root(rv["op"])
+                if root in acc:
+                    continue
+                dd = nj.single_def(root) if root is not None else None
+                if dd and dd[0] == "call" and dd[2].name() in ("new", "with_capacity", "default") and not [
+                        c for c in nj.calls() if c.name() in ("push", "extend", "append", "extend_from_slice") and c.args and nj.alias_root(c.args[0]) == root]:
+                    continue
+                bad.append((nj.local_name(root) or "_%s" % root, None))
+        R.ob("C11-R4", "no-shortcut", "natural_join returns only its own accumulated rows or an empty vector (other returns: %s)" % [b[0] for b in bad],
+             not bad, where=nj.where(bad[0][1] if bad else None),
+             detail=None if not bad else "returning an operand unchanged when the other one is empty emits solutions that are not answers of the "
+             "empty block (window or static part)")
+    if jw is not None:
+        calls = [c for c in jw.calls() if nj is not None and c.key == nj.key]
+        # iterator form: values.into_iter().reduce(|acc, w| natural_join(&acc, &w))
+        red_ok = False
+        for rc in jw.calls():
+            if rc.name() in ("reduce", "fold") and len(rc.args) >= 2:
+                from c19 import closure_family_calls
+                key, inner = closure_family_calls(prog, jw, rc.args[-1])
+                cl = prog.bodies.get(key) if key else None
+                if cl is not None and nj is not None:
+                    njc = [ic for ic in cl.calls() if ic.key == nj.key]
+                    names, roots = P.flat(P.tree(jw, rc.args[0]))
+                    trunc = [n for n in names if n not in ("iter", "into_iter", "deref", "values", "into_values", "cloned", "collect", "drain")]
+                    # the closure's verdict is the join of its accumulator and its item, on every path
+                    d0 = cl.defs().get(0, [])
+                    direct = len(njc) == 1 and len(d0) == 1 and d0[0][0] == "call" and d0[0][2] is njc[0]
+                    if direct and not trunc:
+                        red_ok = True
+                        R.ob("C11-R4", "fold-reduce", "join_window_results reduces every window result set with natural_join (pipeline %s)" % names, True, where=jw.where(rc.ln))
+        if red_ok and not calls:
+            calls = []
+        R.ob("C11-R4", "fold", "join_window_results folds the window results with natural_join (found %d call%s)" % (len(calls), ", reduce form" if red_ok else ""),
+             len(calls) >= 1 or red_ok, where=jw.where())
+        for c in calls:
+            drv = P.loop_driver(jw, c.bb)
+            if drv is None or drv[2] is None:
+                R.ob("C11-R4", "fold-loop", "the fold runs in a loop over the window result sets", False, where=jw.where(c.ln))
+                continue
+            h, blocks, t = drv
+            names, roots = P.flat(t)
+            trunc = [n for n in names if n not in ("iter", "into_iter", "deref", "drain", "iter_mut")]
+            R.ob("C11-R4", "fold-all", "the fold visits every remaining window result set (pipeline %s)" % names, not trunc, where=jw.where(c.ln))
+            # within an iteration the join cannot be skipped: from the loop body entry every path back to the header passes the join
+            skip = h in jw.reach_from(_body_entries(jw, h, blocks), avoid={c.bb}) if True else False
+            R.ob("C11-R4", "fold-no-skip", "no iteration of the fold skips the join", not skip, where=jw.where(c.ln),
+                 detail=None if not skip else "a window whose result set is skipped (e.g. because it is empty) no longer constrains the solutions")
+            # the accumulator is replaced by the join's result
+            okacc = False
+            left = _through(jw, c.args[0])
+            for bb, i, pl, rv, st in jw.assigns():
+                if bb in blocks and not pl["p"] and rv["rv"] == "use" and jw.alias_root(rv["op"]) == c.dest["l"] and left == pl["l"]:
+                    okacc = True
+            if not okacc and left is not None and left == c.dest["l"]:
+                okacc = True
+            R.ob("C11-R4", "fold-acc", "the running join is the left operand and receives the result", okacc, where=jw.where(c.ln))
+    if em is not None and nj is not None:
+        calls = [c for c in em.calls() if c.key == nj.key]
+        R.ob("C11-R4", "static-join", "emit_results joins the static bindings with natural_join (found %d call)" % len(calls), len(calls) == 1, where=em.where())
+        for c in calls:
+            extra = []
+            for cd in G.conditions(em, c.bb):
+                if cd["kind"] == "variant":
+                    continue            # `if let Some(plan) = static_data_plan`
+                extra.append(cd["kind"] + (":" + cd["call"].name() if cd["kind"] == "call" else ""))
+            R.ob("C11-R4", "static-unconditional", "whenever a static plan exists its bindings are joined, under no further condition", not extra,
+                 where=em.where(c.ln), detail=None if not extra else "further condition(s) %s: when the static part has no answer the window "
+                 "solutions are emitted although they do not join with any static answer" % extra)
+
+
+def _body_entries(b, h, blocks):
+    """successors of the loop's `next()` test that stay in the loop (start of one iteration's body)"""
+    out = []
+    for c in b.calls():
+        if c.name() == "next" and c.bb in blocks:
+            # the switch on the Option follows
+            for s in b.succ(c.bb):
+                for s2 in b.succ(s):
+                    if s2 in blocks and b.blocks[s]["term"]["t"] == "switch":
+                        out.append(s2)
+    return out or [s for s in b.succ(h) if s in blocks]
+
+
+def _through(b, op, depth=0):
+    """the named local an operand refers to, looking through borrows and deref/as_slice style calls"""
+    if depth > 8:
+        return None
+    o = b.origin(op, stop_named=True)
+    if o[0] == "place":
+        return o[1]["l"]
+    if o[0] == "call" and o[1].name() in ("deref", "as_slice", "as_ref", "borrow", "as_mut", "deref_mut") and o[1].args:
+        return _through(b, o[1].args[0], depth + 1)
+    return None
